@@ -15,6 +15,7 @@ import (
 	"strings"
 
 	"golang.org/x/tools/go/ssa"
+	"golang.org/x/tools/go/types/typeutil"
 )
 
 // ---------------------------------------------------------------------------
@@ -29,6 +30,9 @@ type BCESite struct {
 	Func string    // enclosing function (resolved from the syntax tree)
 	Expr string    // the indexed / sliced expression, printed from the syntax tree
 	Pos  token.Pos // position of the '[' (matches the SSA instruction's position); NoPos if unknown
+	// InlinedFrom is set when the compiler reports the check at a call of a function of this module that it inlined:
+	// the same check is reported at its own position in that function's body, where it is decided.
+	InlinedFrom string
 }
 
 var bceRe = regexp.MustCompile(`^(.*\.go):(\d+):(\d+): Found (IsInBounds|IsSliceInBounds)`)
@@ -137,10 +141,28 @@ func (p *Prog) locateBCE(s *BCESite) {
 						a, b := p.Fset.Position(call.Pos()), p.Fset.Position(call.End())
 						if a.Filename == pos.Filename && a.Line == s.Line && b.Line == s.Line && a.Column <= s.Col && s.Col <= b.Column {
 							best, bestFn = call, fn
+							s.InlinedFrom = ""
+							if callee, _ := typeutil.Callee(pk.TypesInfo, call).(*types.Func); callee != nil && callee.Pkg() != nil && p.InModule(callee.Pkg().Path()) {
+								s.InlinedFrom = callee.FullName()
+							}
 						}
 					}
 					return true
 				})
+			}
+			if best == nil && p.Norm != nil {
+				// a call that the source normaliser replaced by its callee's body: the compiler, which sees the
+				// original source, inlined the same callee and repeats the callee's checks at the call
+				for _, site := range p.Norm.Sites {
+					if site.File != pos.Filename {
+						continue
+					}
+					after := s.Line > site.Line || (s.Line == site.Line && s.Col >= site.Col)
+					before := s.Line < site.EndLine || (s.Line == site.EndLine && s.Col <= site.EndCol)
+					if after && before {
+						s.InlinedFrom = site.Callee
+					}
+				}
 			}
 			if best == nil {
 				// nothing on that line: name the function by plain containment
@@ -725,6 +747,38 @@ func derivesFromPhi2(v ssa.Value, phi *ssa.Phi, depth int) bool {
 		}
 	}
 	return false
+}
+
+// InstrsAt finds every index/slice/lookup instruction whose position is pos: one, or one per copy when the source
+// normaliser inlined the enclosing helper into several callers.
+func (p *Prog) InstrsAt(pos token.Pos) []ssa.Instruction {
+	if !pos.IsValid() {
+		return nil
+	}
+	want := p.Fset.Position(pos)
+	var found []ssa.Instruction
+	for fn := range p.AllFunctions() {
+		if len(fn.Blocks) == 0 || fn.Pkg == nil || !p.InModule(fn.Pkg.Pkg.Path()) {
+			continue
+		}
+		Instrs(fn, func(in ssa.Instruction) {
+			switch in.(type) {
+			case *ssa.IndexAddr, *ssa.Index, *ssa.Lookup, *ssa.Slice:
+			default:
+				return
+			}
+			if in.Pos() == pos {
+				found = append(found, in)
+				return
+			}
+			if in.Pos().IsValid() {
+				if q := p.Fset.Position(in.Pos()); q.Filename == want.Filename && q.Line == want.Line && q.Column == want.Column {
+					found = append(found, in)
+				}
+			}
+		})
+	}
+	return found
 }
 
 // InstrAt finds the index/slice/lookup instruction whose position is pos.
